@@ -138,6 +138,50 @@ def run(ctx):
         tasks = [(cases[j], int(ctx.seed * 1000003 + j), 1 if ctx.tier == 'quick' else 2) for j in order[:per]]
         common.pmap(ctx, _worker, tasks)
         replay_add_many(ctx, [cases[j] for j in order], rng, 150 if ctx.tier == 'quick' else 1500)
+    # one step beyond the small scope (no exact model: the inequalities of the property only): d = 6..10, modes up to 8, ranks
+    # up to 16, sums of 20-45 terms; distances through Gram chains, never through dense arrays
+    def gram(A, B):
+        w = np.ones((1, 1))
+        for Ga, Gb in zip(A, B):
+            w = np.einsum('ab,aic,bid->cd', w, Ga, Gb)
+        return float(w[0, 0])
+    for t in range(6 if ctx.tier == 'quick' else 40):
+        d = int(rng.integers(6, 11))
+        n = [int(x) for x in rng.integers(2, 9, size=d)]
+        nt = int(rng.integers(20, 46))
+        terms = [teneva.mul(teneva.rand(n, 1, seed=int(rng.integers(1 << 30))), float(2.0 ** (-0.7 * j))) for j in range(nt)]
+        Ybig = terms[0]
+        for T_ in terms[1:8]:
+            Ybig = teneva.add(Ybig, T_)
+        nY = np.sqrt(gram(Ybig, Ybig))
+        for e_, cap_, eig_, stab_ in ((1e-2, 1e12, True, False), (1e-4, 1e12, False, True), (1e-1, 3, False, False), (1e-3, 5.5, True, True)):
+            Z = teneva.truncate(Ybig, e_, cap_, is_eigh=eig_, use_stab=stab_)
+            ctx.case(key=('large-truncate', n, e_, cap_, eig_, stab_, t), nontrivial=True)
+            okz = F.is_wellformed(Z, n)
+            if okz:
+                rz = [G.shape[2] for G in Z[:-1]]
+                ry = [G.shape[2] for G in Ybig[:-1]]
+                okz = all(1 <= a <= max(1, int(cap_)) and a <= b for a, b in zip(rz, ry))
+                if okz and cap_ > 100:
+                    err = np.sqrt(max(0., gram(Z, Z) - 2 * gram(Z, Ybig) + gram(Ybig, Ybig)))
+                    okz = err <= e_ * nY * (1 + 1e-6) + 1e-7 * nY
+            ctx.check(okz, 'truncate:large', 'truncate(e=%g, r=%s, is_eigh=%s, use_stab=%s) on a rank-8 tensor with d=%d: rank caps or the error bound e*||Y|| violated' % (e_, cap_, eig_, stab_, d))
+        # add_many over more than two rounding periods (default trunc_freq = 15): bound per rounding step, cap at the end
+        e_ = 1e-3
+        S = teneva.add_many(terms, e=e_, r=6)
+        ref_terms = terms
+        ctx.case(key=('large-add_many', n, nt, t), nontrivial=True)
+        oks = F.is_wellformed(S, n) and max(G.shape[2] for G in S[:-1]) <= 6
+        S2 = teneva.add_many(terms, e=e_, r=1e12)
+        if oks and F.is_wellformed(S2, n):
+            Yall = ref_terms[0]
+            for T_ in ref_terms[1:]:
+                Yall = teneva.add(Yall, T_)
+            nA = np.sqrt(gram(Yall, Yall))
+            err2 = np.sqrt(max(0., gram(S2, S2) - 2 * gram(S2, Yall) + nA * nA))
+            nround = nt // 15 + 1
+            oks = err2 <= 2.5 * nround * e_ * nA + 1e-7 * nA          # every partial sum is at most ~2.5 times the total here
+        ctx.check(oks, 'add_many:large', 'add_many of %d terms (d=%d): rank cap at the end or the accumulated error bound violated' % (nt, d))
     # stabilised rounding of tensors whose accumulated exponent is outside the double range (every core times 2^450 / 2^-150;
     # d = 3, 4): the exact thresholds of the same Rounding cases, compared through normalised Gram chains
     from . import c16
